@@ -134,7 +134,7 @@ func waitAbandon(shape string, fails1, fails2 bool) string {
 		case took > nextBudget:
 			return fmt.Sprintf("ABANDON next-blocked-for %v", took)
 		case err == ysgo.ErrWaitingForCommandCompletion:
-			if time.Since(start) > 2*time.Second {
+			if time.Since(start) > 6*time.Second {
 				return "ABANDON never-completed"
 			}
 			time.Sleep(time.Millisecond)
@@ -160,7 +160,9 @@ func waitAbandon(shape string, fails1, fails2 bool) string {
 	}
 }
 
-const nextBudget = 100 * time.Millisecond // a Next call that takes longer than this is considered blocking
+// a Next call that takes longer than this is considered blocking (generous: the machine may be busy; an implementation
+// that waits for the handler inside Next is caught by the missing "waiting" answers, not by this budget)
+const nextBudget = 500 * time.Millisecond
 
 func timedNext(dr *ysgo.DialogueRunner) (el *ysgo.DialogueElement, err error, took time.Duration, panicked bool) {
 	start := time.Now()
@@ -195,10 +197,11 @@ func waitTiming(n float64) string {
 		case took > nextBudget:
 			return fmt.Sprintf("TIMING next-blocked-for %v", took)
 		case err == ysgo.ErrWaitingForCommandCompletion:
-			if elapsed > limit {
-				if n*float64(time.Second) > float64(limit) {
-					return "TIMING ok" // still pending, as it must be
-				}
+			if elapsed > limit && n*float64(time.Second) > float64(limit) {
+				return "TIMING ok" // still pending, as it must be
+			}
+			if elapsed > limit+5*time.Second {
+				// (a short wait gets five more seconds before it is declared lost: the machine may be busy)
 				return fmt.Sprintf("TIMING never-completed n=%v", n)
 			}
 			time.Sleep(2 * time.Millisecond)
@@ -294,7 +297,7 @@ func waitShape(shape string, delayMs int, fails bool) string {
 			return fmt.Sprintf("SHAPE next-blocked-for %v (handler delay %v)", took, delay)
 		case err == ysgo.ErrWaitingForCommandCompletion:
 			waits++
-			if time.Since(start) > delay+2*time.Second {
+			if time.Since(start) > delay+6*time.Second {
 				return "SHAPE never-completed"
 			}
 			time.Sleep(time.Millisecond)
